@@ -7,6 +7,9 @@ use flate2::Compression;
 use serde_json::{json, Map, Value};
 use std::io::Write;
 
+#[path = "c01_shapes.rs"]
+pub mod shapes;
+
 pub const ALL: [&str; 5] = ["strict", "default", "tolerant", "lenient", "skip"];
 
 /// boundary catalogue of the property statement
@@ -500,6 +503,9 @@ fn bomb(a: &Value) -> Vec<u8> {
 
 pub fn build(spec: &Value) -> Vec<u8> {
     let empty = Map::new();
+    if let Some(b) = shapes::build_shape(spec) {
+        return b;
+    }
     match spec["gen"].as_str().unwrap_or("") {
         "skel" => skeleton(spec["skel"].as_str().unwrap_or("classic"), spec["slots"].as_object().unwrap_or(&empty)),
         "direct" => format!("{{\"direct\":{},\"args\":{}}}", spec["direct"], spec["args"]).into_bytes(),
@@ -780,6 +786,7 @@ pub fn generate(ctx: &Ctx) -> Vec<Case> {
     slot_cases(&mut out, th);
     bomb_cases(&mut out, th);
     let mut r = Rng::new(ctx.seed ^ 0xC01);
+    shapes::shape_cases(&mut out, th, &mut r.fork());
     // valid skeletons as they are
     for sk in ["classic", "xrefstm", "objstm"] {
         out.push(skel_case(sk, &[], "KNone", vec![], "valid"));
